@@ -183,7 +183,7 @@ def main(run):
     run.assumptions = ["canonicity is decided by GNU as + objdump exactly as the statement defines it; relative branches are skipped in (b) because objdump prints absolute targets",
                        "membership (b in asm(str(dis(b)))) is demanded, not equality of candidate sets"]
     runner.pmap(run, w_text, [run.pick(700, 15000)] * 16)
-    cs = set(x86space.cases(run.tier, run.seed, thin=run.pick(2, 1))) | set(x86space.modrm_grid()) | set(x86space.x87_cases()) | set(x86space.boundary_value_cases())
+    cs = set(x86space.cases(run.tier, run.seed, thin=run.pick(2, 1))) | set(x86space.modrm_grid()) | set(x86space.segment_grid(*run.pick(((b"\x8b", b"\xff", b"\x0f\xb6"),), ()))) | set(x86space.x87_cases()) | set(x86space.boundary_value_cases())
     runner.pmap(run, w_bytes, runner.chunks(sorted(cs), 64))
 
 
